@@ -999,7 +999,8 @@ def ncon_case(ctx, idx, k):
         else:
             key = "ncon-swap:" + mech + (":bosonic" if not fermionic else "") + (":" + oclass if oclass != "resolvable" else "")
         what = f"{via}(inds={net.inds}, conjs={net.conjs}, order={order}, swap={net.swap}) [{sym} fermionic={ferm}; order class {oclass}]"
-        compare_net(ctx, key, what, r, expected, net, nexp, tol, dict(base_w, order=order, via=via, order_class=oclass, commands_summary=cm))
+        if not compare_net(ctx, key, what, r, expected, net, nexp, tol, dict(base_w, order=order, via=via, order_class=oclass, commands_summary=cm)):
+            ctx.count("ncon_orders_mismatch:" + oclass + (":pending-swap-at-trace" if (not unres and "trace" in hard) else ""))
     reach().end_case(ctx)
     ctx.count("ncon_networks")
     ctx.count("ncon_orders_accepted", accepted)
